@@ -93,6 +93,33 @@ func (fr *frame) call(b *ssa.BasicBlock, site ssa.Instruction, c *ssa.CallCommon
 // callCounted: ghost counters around the call proper.
 func (fr *frame) callCounted(b *ssa.BasicBlock, site ssa.Instruction, c *ssa.CallCommon, name string, sig *types.Signature, rt types.Type, args []Val, atypes []types.Type, reach Term, h Heap) (Val, Heap) {
 	x := fr.x
+	// only_calls: a structural frame on the function's own call sites
+	if x.con != nil && len(x.con.OnlyCalls) > 0 && fr.depth == 0 && name != "" && !strings.HasPrefix(name, "builtin.") {
+		allowed := false
+		for _, p := range x.con.OnlyCalls {
+			if name == p || shortCallee(name) == p {
+				allowed = true
+			}
+		}
+		if !allowed {
+			x.addObl("only_calls", fmt.Sprintf("%s.only_calls[%s]", shortFn(x.top), shortCallee(name)), "the function calls "+name+", which its only_calls clause does not list", site.Pos(), reach, "false")
+		}
+	}
+	// snap[COUNTER:name]: ghost record of a fact in the state right before the watched call
+	if x.con != nil && len(x.con.Snaps) > 0 && x.topFr != nil {
+		for _, cn := range fr.countMatches(c, name) {
+			for _, sn := range x.con.Snaps {
+				if !strings.HasPrefix(sn.Label, cn+":") {
+					continue
+				}
+				ci := x.eng.clauses[sn]
+				env := x.newSpecEnv(ci, x.topFr.paramVals(ci.params, nil), h, x.topFr.entry)
+				key := "$snap:" + sn.Label[len(cn)+1:]
+				x.regKey(key, "Int")
+				h = h.set(key, app("b2i", x.evalBool(env, clauseExpr(ci))))
+			}
+		}
+	}
 	h = fr.countCall(c, name, args, atypes, h)
 	if matched := fr.countMatches(c, name); len(matched) > 0 {
 		res, nh := fr.call2(b, site, c, name, sig, rt, args, atypes, reach, h)
